@@ -7,7 +7,7 @@ theorem inv_step_call (c : Cfg) (s s' : State) (f : Nat) (hi : Inv c s)
   have hF := hi.forks
   have hf := hs.lt
   obtain ⟨g1, g2, g3, g4, g5, g6, g7, g8, -⟩ := hi
-  obtain ⟨a1, a2, a3, a4, a5, a6, a7, a8, a9, a10, a11, a12, a13, a14, a15, a16, a17, a18, a19, a20, a21, a22, a23, a24, a25, a26, a27⟩ := hF f hf
+  obtain ⟨a1, a2, a3, a4, a5, a6, a7, a8, a9, a10, a11, a12, a13, a14, a15, a16, a17, a18, a19, a20, a21, a22, a23, a24, a25, a26, a27, a28⟩ := hF f hf
   cases hs
   case call => tee_all
 
@@ -16,7 +16,7 @@ theorem inv_step_hget (c : Cfg) (s s' : State) (f : Nat) (hi : Inv c s)
   have hF := hi.forks
   have hf := hs.lt
   obtain ⟨g1, g2, g3, g4, g5, g6, g7, g8, -⟩ := hi
-  obtain ⟨a1, a2, a3, a4, a5, a6, a7, a8, a9, a10, a11, a12, a13, a14, a15, a16, a17, a18, a19, a20, a21, a22, a23, a24, a25, a26, a27⟩ := hF f hf
+  obtain ⟨a1, a2, a3, a4, a5, a6, a7, a8, a9, a10, a11, a12, a13, a14, a15, a16, a17, a18, a19, a20, a21, a22, a23, a24, a25, a26, a27, a28⟩ := hF f hf
   cases hs
   case hgetChk => tee_all
   case hgetLoop => tee_all
@@ -28,7 +28,7 @@ theorem inv_step_acqOk (c : Cfg) (s s' : State) (f : Nat) (hi : Inv c s)
   have hF := hi.forks
   have hf := hs.lt
   obtain ⟨g1, g2, g3, g4, g5, g6, g7, g8, -⟩ := hi
-  obtain ⟨a1, a2, a3, a4, a5, a6, a7, a8, a9, a10, a11, a12, a13, a14, a15, a16, a17, a18, a19, a20, a21, a22, a23, a24, a25, a26, a27⟩ := hF f hf
+  obtain ⟨a1, a2, a3, a4, a5, a6, a7, a8, a9, a10, a11, a12, a13, a14, a15, a16, a17, a18, a19, a20, a21, a22, a23, a24, a25, a26, a27, a28⟩ := hF f hf
   cases hs
   case acqOkH => tee_all
   case acqOkW => tee_all
@@ -38,7 +38,7 @@ theorem inv_step_acqFail (c : Cfg) (s s' : State) (f : Nat) (hi : Inv c s)
   have hF := hi.forks
   have hf := hs.lt
   obtain ⟨g1, g2, g3, g4, g5, g6, g7, g8, -⟩ := hi
-  obtain ⟨a1, a2, a3, a4, a5, a6, a7, a8, a9, a10, a11, a12, a13, a14, a15, a16, a17, a18, a19, a20, a21, a22, a23, a24, a25, a26, a27⟩ := hF f hf
+  obtain ⟨a1, a2, a3, a4, a5, a6, a7, a8, a9, a10, a11, a12, a13, a14, a15, a16, a17, a18, a19, a20, a21, a22, a23, a24, a25, a26, a27, a28⟩ := hF f hf
   cases hs
   case acqFailH => tee_all
   case acqFailW => tee_all
